@@ -10,6 +10,7 @@ is the list of numbers its `Intn` calls return.
 import DtailModel.Generated.Code
 import DtailModel.Lemmas.GoRT
 import DtailModel.Lemmas.Discovery
+set_option autoImplicit false
 namespace Dtail.GenDiscovery
 open Dtail Dtail.Go Dtail.Gen.Discovery
 
